@@ -145,7 +145,7 @@ Proof. reflexivity. Qed.
 
 Lemma get_ops_from_spec l : forall g,
   valid_ops l = true ->
-  exists g', get_ops_from g l = Some g' /\
+  exists g', old_get_ops_from g l = Some g' /\
     forall k,
       memN k (g_once g') = memN k (g_once g) || has KOnce k l /\
       memN k (g_start g') = memN k (g_start g) || has KStart k l /\
@@ -157,7 +157,7 @@ Proof.
     rewrite !orb_false_r. repeat split; reflexivity.
   - rewrite valid_cons in Hv. apply andb_true_iff in Hv as [Hb Hv].
     destruct o as [x|x|x|x|]; simpl in Hb; try discriminate; simpl;
-      (match goal with |- context [get_ops_from ?g1 l] => destruct (IH g1 Hv) as [g' [E H]] end);
+      (match goal with |- context [old_get_ops_from ?g1 l] => destruct (IH g1 Hv) as [g' [E H]] end);
       exists g'; (split; [exact E|]); intro k; destruct (H k) as [H1 [H2 [H3 H4]]];
       unfold has, stopf in *; simpl in *; unfold stop_step at 2; unfold view;
       rewrite H1, H2, H3, H4; simpl;
@@ -167,7 +167,7 @@ Proof.
       repeat split; reflexivity.
 Qed.
 
-Lemma get_ops_bad l : valid_ops l = false -> forall g, get_ops_from g l = None.
+Lemma get_ops_bad l : valid_ops l = false -> forall g, old_get_ops_from g l = None.
 Proof.
   induction l as [|o l IH]; intros Hv g; [discriminate|].
   rewrite valid_cons in Hv. destruct o; simpl in *; try (apply IH; exact Hv). reflexivity.
@@ -185,9 +185,9 @@ Definition kbatch (k : N) (l : list bop) (b : bool * bool) : bool * bool :=
 
 Lemma batch_key k l b :
   valid_ops l = true ->
-  fold_left (k_apply k) (batch_calls l) b = kbatch k l b.
+  fold_left (k_apply k) (old_batch_calls l) b = kbatch k l b.
 Proof.
-  intro Hv. unfold batch_calls, get_operations.
+  intro Hv. unfold old_batch_calls, old_get_operations.
   destruct (get_ops_from_spec l groups0 Hv) as [g [E H]]. rewrite E.
   destruct (H k) as [H1 [H2 [H3 H4]]]. simpl in H1, H2, H3, H4.
   rewrite !fold_left_app.
@@ -199,8 +199,8 @@ Proof.
   destruct bk, bp, (has KForce k l), (has KStart k l), (has KOnce k l), (stopf k l false); reflexivity.
 Qed.
 
-Lemma batch_bad l : valid_ops l = false -> batch_calls l = [].
-Proof. intro H. unfold batch_calls, get_operations. rewrite (get_ops_bad l H). reflexivity. Qed.
+Lemma batch_bad l : valid_ops l = false -> old_batch_calls l = [].
+Proof. intro H. unfold old_batch_calls, old_get_operations. rewrite (get_ops_bad l H). reflexivity. Qed.
 
 (* ---- snoc lemmas ---------------------------------------------------------------------------- *)
 Lemma has_snoc w k l o : has w k (l ++ [o]) = has w k l || isk (view k o) w.
@@ -315,16 +315,16 @@ Proof. unfold kseq. apply fold_left_app. Qed.
 
 Lemma worker_ks k : forall cs s,
   Forall (fun c => valid_ops c = true) cs ->
-  kin k (i_run s (flat_map batch_calls cs)) = kks k (concat cs) (kin k s).
+  kin k (i_run s (flat_map old_batch_calls cs)) = kks k (concat cs) (kin k s).
 Proof.
   induction cs as [|c cs IH]; intros s Hv; simpl.
   - reflexivity.
   - inversion Hv as [|? ? Hc Hcs]; subst.
-    unfold i_run. rewrite fold_left_app. fold (i_run s (batch_calls c)).
-    fold (i_run (i_run s (batch_calls c)) (flat_map batch_calls cs)).
+    unfold i_run. rewrite fold_left_app. fold (i_run s (old_batch_calls c)).
+    fold (i_run (i_run s (old_batch_calls c)) (flat_map old_batch_calls cs)).
     rewrite IH by exact Hcs.
-    pose proof (i_run_key k (batch_calls c) s) as E. rewrite batch_key in E by exact Hc.
-    assert (Ek : kin k (i_run s (batch_calls c)) = fst (kbatch k c (kin k s, pin k s)))
+    pose proof (i_run_key k (old_batch_calls c) s) as E. rewrite batch_key in E by exact Hc.
+    assert (Ek : kin k (i_run s (old_batch_calls c)) = fst (kbatch k c (kin k s, pin k s)))
       by (rewrite <- E; reflexivity).
     rewrite Ek, ks_batch_eq_seq.
     unfold kks. rewrite kseq_app.
@@ -371,9 +371,9 @@ Qed.
 Theorem buffered_ks_equiv :
   forall (batch_size : nat) (l : list bop) (s : inner) (k : N),
     (0 < batch_size)%nat -> valid_ops l = true ->
-    kin k (i_run s (worker_calls batch_size l)) = kin k (i_run s (seq_calls l)).
+    kin k (i_run s (old_worker_calls batch_size l)) = kin k (i_run s (seq_calls l)).
 Proof.
-  intros n l s k Hn Hv. unfold worker_calls.
+  intros n l s k Hn Hv. unfold old_worker_calls.
   rewrite worker_ks by (apply chunks_fuel_valid; exact Hv).
   rewrite chunks_concat by exact Hn. symmetry. apply seq_ks.
 Qed.
@@ -381,12 +381,12 @@ Qed.
 Theorem buffered_pend_sub :
   forall (l : list bop) (s : inner) (k : N),
     valid_ops l = true ->
-    pin k (i_run s (batch_calls l)) = true -> pin k (i_run s (seq_calls l)) = true.
+    pin k (i_run s (old_batch_calls l)) = true -> pin k (i_run s (seq_calls l)) = true.
 Proof.
   intros l s k Hv.
-  pose proof (i_run_key k (batch_calls l) s) as E1. rewrite batch_key in E1 by exact Hv.
+  pose proof (i_run_key k (old_batch_calls l) s) as E1. rewrite batch_key in E1 by exact Hv.
   pose proof (i_run_key k (seq_calls l) s) as E2. rewrite seq_calls_key in E2.
-  assert (A : pin k (i_run s (batch_calls l)) = snd (kbatch k l (kin k s, pin k s))) by (rewrite <- E1; reflexivity).
+  assert (A : pin k (i_run s (old_batch_calls l)) = snd (kbatch k l (kin k s, pin k s))) by (rewrite <- E1; reflexivity).
   assert (B : pin k (i_run s (seq_calls l)) = snd (kseq k l (kin k s, pin k s))) by (rewrite <- E2; reflexivity).
   rewrite A, B. apply pend_batch_sub_seq.
 Qed.
@@ -395,12 +395,12 @@ Theorem buffered_pend_sup :
   forall (l : list bop) (s : inner) (k : N),
     valid_ops l = true -> no_once_after_stop l = true ->
     pin k (i_run s (seq_calls l)) = true ->
-    pin k (i_run s (batch_calls l)) = true \/ kin k s = true.
+    pin k (i_run s (old_batch_calls l)) = true \/ kin k s = true.
 Proof.
   intros l s k Hv Hn.
-  pose proof (i_run_key k (batch_calls l) s) as E1. rewrite batch_key in E1 by exact Hv.
+  pose proof (i_run_key k (old_batch_calls l) s) as E1. rewrite batch_key in E1 by exact Hv.
   pose proof (i_run_key k (seq_calls l) s) as E2. rewrite seq_calls_key in E2.
-  assert (A : pin k (i_run s (batch_calls l)) = snd (kbatch k l (kin k s, pin k s))) by (rewrite <- E1; reflexivity).
+  assert (A : pin k (i_run s (old_batch_calls l)) = snd (kbatch k l (kin k s, pin k s))) by (rewrite <- E1; reflexivity).
   assert (B : pin k (i_run s (seq_calls l)) = snd (kseq k l (kin k s, pin k s))) by (rewrite <- E2; reflexivity).
   rewrite A, B. apply pend_seq_sub_batch.
   apply (noas_of_list l [] k). exact Hn.
@@ -411,14 +411,14 @@ Qed.
 Theorem buffered_once_after_stop_lost :
   exists (l : list bop) (s : inner) (k : N),
     valid_ops l = true /\
-    pin k (i_run s (seq_calls l)) = true /\ pin k (i_run s (batch_calls l)) = false /\ kin k s = false.
+    pin k (i_run s (seq_calls l)) = true /\ pin k (i_run s (old_batch_calls l)) = false /\ kin k s = false.
 Proof.
   exists [BStop 7; BOnce 7], {| ks := []; pend := [] |}, 7. vm_compute. repeat split; reflexivity.
 Qed.
 
 (* one undecodable item drops the whole batch *)
 Theorem buffered_bad_item_drops_batch :
-  forall l, valid_ops l = false -> batch_calls l = [].
+  forall l, valid_ops l = false -> old_batch_calls l = [].
 Proof. exact batch_bad. Qed.
 
 (* the same for EVERY way of cutting the queue into batches (the worker takes what GetN
@@ -426,14 +426,14 @@ Proof. exact batch_bad. Qed.
 Theorem buffered_ks_equiv_batches :
   forall (cs : list (list bop)) (s : inner) (k : N),
     Forall (fun c => valid_ops c = true) cs ->
-    kin k (i_run s (flat_map batch_calls cs)) = kin k (i_run s (seq_calls (concat cs))).
+    kin k (i_run s (flat_map old_batch_calls cs)) = kin k (i_run s (seq_calls (concat cs))).
 Proof. intros cs s k Hv. rewrite worker_ks by exact Hv. symmetry. apply seq_ks. Qed.
 
 (* as sets of keys *)
 Corollary buffered_keystore_same_set :
   forall (cs : list (list bop)) (s : inner),
     Forall (fun c => valid_ops c = true) cs ->
-    forall k, In k (ks (i_run s (flat_map batch_calls cs))) <-> In k (ks (i_run s (seq_calls (concat cs)))).
+    forall k, In k (ks (i_run s (flat_map old_batch_calls cs))) <-> In k (ks (i_run s (seq_calls (concat cs)))).
 Proof.
   intros cs s Hv k. pose proof (buffered_ks_equiv_batches cs s k Hv) as E. unfold kin in E.
   assert (M : forall x l, memN x l = true <-> In x l).
@@ -443,7 +443,7 @@ Proof.
   rewrite <- !M. rewrite E. tauto.
 Qed.
 
-(* ======================= the proposed repair ==================================================== *)
+(* ======================= PRIMARY MODEL (repaired getOperations / worker) ========================== *)
 (* (in stopProv, in earlyStopProv) for one key *)
 Definition fstep (k : N) (st : bool * bool) (o : bop) : bool * bool :=
   let (t, e) := st in
@@ -456,7 +456,7 @@ Definition fstep (k : N) (st : bool * bool) (o : bop) : bool * bool :=
 Definition fflags (k : N) (l : list bop) (st : bool * bool) : bool * bool := fold_left (fstep k) l st.
 
 Lemma fix_ops_spec l : forall a k,
-  let a' := fold_left fix_step l a in
+  let a' := fold_left get_op_step l a in
   memN k (g_once (fg a')) = memN k (g_once (fg a)) || has KOnce k l /\
   memN k (g_start (fg a')) = memN k (g_start (fg a)) || has KStart k l /\
   memN k (g_force (fg a')) = memN k (g_force (fg a)) || has KForce k l /\
@@ -464,7 +464,7 @@ Lemma fix_ops_spec l : forall a k,
 Proof.
   induction l as [|o l IH]; intros a k; simpl.
   - unfold has, fflags; simpl. rewrite !orb_false_r. repeat split; reflexivity.
-  - destruct (IH (fix_step a o) k) as [H1 [H2 [H3 H4]]].
+  - destruct (IH (get_op_step a o) k) as [H1 [H2 [H3 H4]]].
     unfold has, fflags in *. simpl. rewrite H1, H2, H3, H4. clear H1 H2 H3 H4 IH.
     unfold fstep at 2. unfold view.
     destruct o as [x|x|x|x|]; simpl.
@@ -495,9 +495,9 @@ Definition kfix (k : N) (l : list bop) (b : bool * bool) : bool * bool :=
   let p2 := p1 && negb e in
   (k2 && negb t, (p2 || o) && negb t).
 
-Lemma fix_batch_key k l b : fold_left (k_apply k) (fix_batch_calls l) b = kfix k l b.
+Lemma fix_batch_key k l b : fold_left (k_apply k) (batch_calls l) b = kfix k l b.
 Proof.
-  unfold fix_batch_calls, fix_operations.
+  unfold batch_calls, get_operations.
   destruct (fix_ops_spec l fgroups0 k) as [H1 [H2 [H3 H4]]]. simpl in H1, H2, H3, H4.
   rewrite !fold_left_app.
   rewrite (k_apply_call_if k (IStart true)) by (intros [x y]; simpl; rewrite !orb_false_r; reflexivity).
@@ -545,14 +545,14 @@ Qed.
 (* the repaired wrapper: same keystore as one-by-one execution, for EVERY operation list
    (undecodable items are skipped by both) and every batching *)
 Lemma fix_worker_ks k : forall cs s,
-  kin k (i_run s (flat_map fix_batch_calls cs)) = kks k (concat cs) (kin k s).
+  kin k (i_run s (flat_map batch_calls cs)) = kks k (concat cs) (kin k s).
 Proof.
   induction cs as [|c cs IH]; intro s; simpl; [reflexivity|].
-  unfold i_run. rewrite fold_left_app. fold (i_run s (fix_batch_calls c)).
-  fold (i_run (i_run s (fix_batch_calls c)) (flat_map fix_batch_calls cs)).
+  unfold i_run. rewrite fold_left_app. fold (i_run s (batch_calls c)).
+  fold (i_run (i_run s (batch_calls c)) (flat_map batch_calls cs)).
   rewrite IH.
-  pose proof (i_run_key k (fix_batch_calls c) s) as E. rewrite fix_batch_key in E.
-  assert (Ek : kin k (i_run s (fix_batch_calls c)) = fst (kfix k c (kin k s, pin k s)))
+  pose proof (i_run_key k (batch_calls c) s) as E. rewrite fix_batch_key in E.
+  assert (Ek : kin k (i_run s (batch_calls c)) = fst (kfix k c (kin k s, pin k s)))
     by (rewrite <- E; reflexivity).
   rewrite Ek, fix_ks_eq_seq. unfold kks. rewrite kseq_app.
   rewrite (kseq_fst_indep k c (kin k s) (pin k s) false).
@@ -561,18 +561,26 @@ Qed.
 
 Theorem fix_ks_equiv :
   forall (cs : list (list bop)) (s : inner) (k : N),
-    kin k (i_run s (flat_map fix_batch_calls cs)) = kin k (i_run s (seq_calls (concat cs))).
+    kin k (i_run s (flat_map batch_calls cs)) = kin k (i_run s (seq_calls (concat cs))).
 Proof. intros cs s k. rewrite fix_worker_ks. symmetry. apply seq_ks. Qed.
 
 Theorem fix_pend :
   forall (l : list bop) (s : inner) (k : N),
-    (pin k (i_run s (fix_batch_calls l)) = true -> pin k (i_run s (seq_calls l)) = true) /\
-    (pin k (i_run s (seq_calls l)) = true -> pin k (i_run s (fix_batch_calls l)) = true \/ kin k s = true).
+    (pin k (i_run s (batch_calls l)) = true -> pin k (i_run s (seq_calls l)) = true) /\
+    (pin k (i_run s (seq_calls l)) = true -> pin k (i_run s (batch_calls l)) = true \/ kin k s = true).
 Proof.
   intros l s k.
-  pose proof (i_run_key k (fix_batch_calls l) s) as E1. rewrite fix_batch_key in E1.
+  pose proof (i_run_key k (batch_calls l) s) as E1. rewrite fix_batch_key in E1.
   pose proof (i_run_key k (seq_calls l) s) as E2. rewrite seq_calls_key in E2.
-  assert (A : pin k (i_run s (fix_batch_calls l)) = snd (kfix k l (kin k s, pin k s))) by (rewrite <- E1; reflexivity).
+  assert (A : pin k (i_run s (batch_calls l)) = snd (kfix k l (kin k s, pin k s))) by (rewrite <- E1; reflexivity).
   assert (B : pin k (i_run s (seq_calls l)) = snd (kseq k l (kin k s, pin k s))) by (rewrite <- E2; reflexivity).
   rewrite A, B. apply fix_pend_both.
+Qed.
+
+Theorem ks_equiv_batch_size :
+  forall (batch_size : nat) (l : list bop) (s : inner) (k : N),
+    (0 < batch_size)%nat ->
+    kin k (i_run s (worker_calls batch_size l)) = kin k (i_run s (seq_calls l)).
+Proof.
+  intros n l s k Hn. unfold worker_calls. rewrite fix_ks_equiv. rewrite chunks_concat by exact Hn. reflexivity.
 Qed.
